@@ -14,7 +14,7 @@ def flat_str(t, name):
     except Exception as e:
         return "EXC %s: %s" % (type(e).__name__, str(e)[:80])
 bad=0; tot=0
-for f in sorted(glob.glob('/tmp/probe/repo2/test/models/*.mo')):
+for f in sorted(glob.glob('/repo/test/models/*.mo')):
     txt=open(f).read()
     t0 = parser.parse(txt, bypass_cache=True)
     if t0 is None: continue
